@@ -715,6 +715,8 @@ def lane_bitop(op, a, b, size):
             return f1('fabs', b)
         if is_const(a) and cbits(a) == allones ^ sign:
             return mk('signbits', b)
+        if a.op == 'signbits' and a.args[0] is b:
+            return f1('fabs', b)          # clear exactly the sign bit of b
     elif op == 'or':
         if ma is not None and mb is not None:
             return mask(b_or(ma, mb), size)
